@@ -292,6 +292,12 @@ Definition cleanb (s : io) : bool :=
   match ledger (io_adf s) with [] => true | _ => false end &&
   match iol s with [] => true | _ => false end && Nat.eqb (nopen s) 0.
 
+(* THE FULL-STRENGTH STATEMENT for the ADF / cgio tables: for ANY session of opens, link traversals and closes (valid or
+   not, in any order, any link graph) after which the user has called close for every handle an open returned, every
+   in_use is 0, the ledger of descriptors is empty and the cgio table is released *)
+Definition refcount_balanced (v : variant) : Prop :=
+  forall w fuel ops s rs, run v fuel w io_init [] ops = Some (s, [], rs) -> clean s.
+
 (* the link graph between the files on disk is acyclic: a rank decreases along every link *)
 Definition acyclic (w : world) (rank : nat -> nat) : Prop :=
   forall a b, has_link w a b = true -> rank b < rank a.
@@ -358,3 +364,8 @@ Fixpoint mrun (v : mvariant) (m : mll) (pend : list nat) (ops : list mop) : mll 
   end.
 
 Definition mclean (m : mll) : Prop := n_open m = 0 /\ files m = [] /\ fsize m = 0 /\ held m = [].
+
+(* THE FULL-STRENGTH STATEMENT for the MLL table: after any session in which every successfully opened file has been
+   closed, the table is released and no cgio handle acquired by cg_open is still held *)
+Definition handles_released (v : mvariant) : Prop :=
+  forall ops m, mrun v mll_init [] ops = (m, []) -> mclean m.
